@@ -191,6 +191,63 @@ Section OptimizeProofs.
   Proof. unfold fl_optimize. rewrite map_map. reflexivity. Qed.
 End OptimizeProofs.
 
+(* where the NoDup hypothesis comes from: the rules entering the optimizer have distinct ids and
+   fusion keeps the id of the group's first member (`let mut filter = base_filter.clone()`) *)
+Lemma NoDup_remove_middle {A} (a b c : list A) : NoDup (a ++ b ++ c) -> NoDup (a ++ c).
+Proof.
+  induction b as [|x b IH]; cbn; [auto|]. intros H. apply IH. eapply NoDup_remove_1. exact H.
+Qed.
+
+Section PoolNoDup.
+  Variable fuse : list rule -> rule.
+  Hypothesis fuse_id : forall x rest, r_id (fuse (x :: rest)) = r_id x.
+
+  Definition contrib (grp : list rule) : list N :=
+    if big grp then match grp with x :: _ => [r_id x] | [] => [] end else map r_id grp.
+
+  Lemma pool_ids_perm g :
+    Permutation (map r_id (fused_of fuse g) ++ map r_id (singles_of g)) (List.concat (map contrib g)).
+  Proof.
+    unfold fused_of, singles_of. induction g as [|grp g IH]; cbn [filter map List.concat]; [reflexivity|].
+    unfold contrib at 1. destruct (big grp) eqn:B; cbn [negb].
+    - destruct grp as [|x rest]; [discriminate|]. cbn [map app]. rewrite fuse_id. constructor. exact IH.
+    - cbn [List.concat]. rewrite map_app.
+      etransitivity; [apply Permutation_app_swap_app|]. apply Permutation_app_head. exact IH.
+  Qed.
+
+  Lemma contrib_nodup g : forall acc, NoDup (acc ++ map r_id (List.concat g)) -> NoDup (acc ++ List.concat (map contrib g)).
+  Proof.
+    induction g as [|grp g IH]; intros acc H; cbn [map List.concat] in *; [exact H|].
+    rewrite map_app in H. unfold contrib at 1. destruct (big grp) eqn:B.
+    - destruct grp as [|x rest]; [discriminate|]. cbn [map app] in *.
+      replace (acc ++ r_id x :: List.concat (map contrib g)) with ((acc ++ [r_id x]) ++ List.concat (map contrib g))
+        by (rewrite <- app_assoc; reflexivity).
+      apply IH. rewrite <- app_assoc. cbn [app].
+      replace (acc ++ r_id x :: map r_id (List.concat g)) with ((acc ++ [r_id x]) ++ map r_id (List.concat g))
+        by (rewrite <- app_assoc; reflexivity).
+      apply (NoDup_remove_middle (acc ++ [r_id x]) (map r_id rest)).
+      rewrite <- app_assoc. cbn [app]. exact H.
+    - rewrite app_assoc. apply IH. rewrite <- app_assoc. exact H.
+  Qed.
+
+  Theorem optimize_pool_nodup neg g :
+    NoDup (map r_id (neg ++ List.concat g)) ->
+    NoDup (map r_id (fused_of fuse g ++ neg ++ singles_of g)).
+  Proof.
+    intros H. rewrite map_app in H. rewrite !map_app.
+    eapply Permutation_NoDup; [|apply (contrib_nodup g (map r_id neg)); exact H].
+    etransitivity; [apply Permutation_app_head; symmetry; apply pool_ids_perm|].
+    rewrite app_assoc. etransitivity; [apply Permutation_app_tail; apply Permutation_app_comm|].
+    rewrite <- app_assoc. reflexivity.
+  Qed.
+
+  (* the optimizer theorem with its natural hypothesis *)
+  Corollary optimize_order_irrelevant' neg g g' :
+    Permutation g g' -> NoDup (map r_id (neg ++ List.concat g)) ->
+    optimize_from fuse neg g = optimize_from fuse neg g'.
+  Proof. intros P H. apply optimize_order_irrelevant; [exact P|]. apply optimize_pool_nodup. exact H. Qed.
+End PoolNoDup.
+
 (* the NoDup hypothesis of optimize_order_irrelevant is satisfiable on a non-trivial input *)
 Definition mk_rule (id : N) (pat : string) : rule :=
   Build_rule 1 (FSimple (bs pat)) None None None None None None id None None.
